@@ -334,6 +334,7 @@ def body_shape(n, vec_cap, param_cap, template=None, wrong=False, roundtrip=True
     def body(M):
         M.aux['const_hook'] = lambda M, s: (Tok('const:' + s.split('::')[-1]) if re.search(r'::(FIELDS|VARIANTS)$', s) or '__FieldVisitor' in s or '__Visitor' in s else NotImplemented)
         check_decls(M.decls, M)
+        M.aux['dictmaps'] = True        # a hand-written (de)serialiser may go through the builder / interner
         rb = RegBuilder(n, vec_cap=vec_cap, param_cap=param_cap, template=template, full_ids=True)
         rb.docs = lambda: rb.vec(lambda: rb.tok('doc'), cap=1)
         rb.path = lambda: [rb.vec(lambda: rb.tok('seg'), cap=1)]
